@@ -1,13 +1,18 @@
 """C05 - HTTP/1.x heads are reported faithfully and independently of the body.
 
-Structural clauses decided (DESIGN.md §5 C05):
+Structural clauses decided:
  R1 the body is cut off before any decoding: what is UTF-8 validated / split into lines is a prefix of the input that
-    ends at the blank line found by a byte search
+    ends at the EARLIEST blank line (CRLFCRLF or LFLF) found by a byte search
  R2 no reordering operation is applied to the header vectors between parsing and the observable
- R3 lookup maps are filled first-wins (entry().or_insert), so a duplicate header cannot replace the first value
- R4 request lists drive requests, response lists responses (optional / skip-value / common lists)
- R5 preferred language: higher q wins, ties go to the earlier entry
+ R3 lookup maps are filled first-wins (entry().or_insert, or insert guarded by !contains_key)
+ R4 request lists drive requests, response lists responses (optional / skip-value / common lists; is_request flags at the
+    call sites)
+ R5 preferred language: higher q wins, ties go to the earlier entry; q-values are compared as parsed (no rounding)
  R6 head routing: request line -> (method, uri, version); version restricted to 1.0/1.1; cookie / referer split out
+ R7 absent-header list: names compared case-folded on both sides; every header of the message counts as present
+ R8 header lines / cookie pairs are divided at their first separator only
+ R9 the header order records the value as parsed (no value dependent dropping)
+ R10 the header-count cap is inclusive (exactly max_headers headers are accepted)
 """
 from ..engine import q as Q
 from ..engine import tables as TB
